@@ -169,6 +169,10 @@ def run(repo: Repo, chk: Check):
     chk.rule("R03.e", "constants[k] is the module variable k of types.py, so the folded and the un-folded spelling agree", floor=3)
     chk.rule("R03.f", "the operand coercion _e ends in float(value) and sends HASH(\"...\") spellings through the numeric hash", floor=2)
     chk.rule("R03.g", "a literal replaces an expression only under the node's is_constant flag (or the callee's is_constexpr)", floor=5)
+    chk.rule("R03.i", "in the constness passes the value of an operator node (binary, boolean, comparison, unary) is set only from "
+                      "the result of the table evaluator applied to constant operands — never from one operand alone or a literal", floor=3)
+    chk.rule("R03.j", "a folded subscript uses the constant list and the constant index exactly as computed (the index is not "
+                      "truncated or wrapped before use)", floor=1)
     chk.rule("R03.h", "every call of a table evaluator passes the constant values of (left, right) / (operand) in that order, "
                       "under a guard that they are constant, and its failures are not turned into values", floor=5)
     u = repo.mod("utils")
@@ -275,7 +279,9 @@ def run(repo: Repo, chk: Check):
         raise AnalysisError(f"R03.g: only {n} literal-substitution sites found")
 
     # ------------------------------------------------------------ R03.h
-    r03h(repo, chk)
+    chk.guarded(r03h, repo, chk)
+    chk.guarded(r03i, repo, chk)
+    chk.guarded(r03j, repo, chk)
 
 
 def r03h(repo: Repo, chk: Check):
@@ -331,3 +337,81 @@ def r03h(repo: Repo, chk: Check):
                           {"guards": gtxt}, where)
     if total < 5:
         raise AnalysisError(f"R03.h: only {total} evaluator call sites found (expected >= 5)")
+
+
+def r03i(repo: Repo, chk: Check):
+    cp = repo.mod("compile_pass")
+    hs = repo.handlers()
+    n = 0
+    for cls in ("CompilerPassCheckConstValue", "CompilerPassCheckConstValueAssign"):
+        for nt in ("BinOp", "BoolOp", "Compare", "UnaryOp"):
+            q = f"{cls}.{hs[nt]}"
+            if q not in cp.funcs:
+                continue
+            fn = cp.funcs[q]
+            cfg, rd = fn_ctx(fn)
+            for c in ast.walk(fn):
+                if not (isinstance(c, ast.Call) and isinstance(c.func, ast.Attribute) and c.func.attr == "set_constant" and c.args):
+                    continue
+                ids = live_ids(cfg, c)
+                if not ids:
+                    continue
+                n += 1
+                chk.saw("compile_pass", q)
+                a = c.args[0]
+                ok = _from_evaluator(a, rd, ids[0])
+                chk.judge("R03.i", f"compile_pass:{q}:set_constant({norm(a)[:50]})", ok,
+                          f"the operator node's constant is set to {norm(a)}, which is not the result of the operator table's evaluator on the constant operands: "
+                          f"the folded value can differ from what the emitted instruction computes (e.g. Python short-circuit vs. bitwise and/or)",
+                          None, f"{cp.path}:{c.lineno} in {q}")
+    if n < 3:
+        raise AnalysisError(f"R03.i: only {n} set_constant sites in the operator handlers of the constness pass")
+
+
+def _from_evaluator(a, rd, nid, depth=0):
+    if depth > 4:
+        return False
+    if isinstance(a, ast.Call) and isinstance(a.func, ast.Name):
+        ds = rd.at(nid, a.func.id)
+        return bool(ds) and all(d.kind == "assign" and d.index == (1,) and isinstance(d.value, ast.Call)
+                                and norm(d.value.func) in ("get_binop_instruction", "get_unop_instruction") for d in ds)
+    if isinstance(a, ast.Name):
+        ds = rd.at(nid, a.id)
+        return bool(ds) and all(d.kind == "assign" and d.value is not None and not d.index and _from_evaluator(d.value, rd, d.node, depth + 1) for d in ds)
+    return False
+
+
+def r03j(repo: Repo, chk: Check):
+    u = repo.mod("utils")
+    fn = u.func("is_constant")
+    cfg, rd = fn_ctx(fn)
+    found = 0
+    for r in ast.walk(fn):
+        if not (isinstance(r, ast.Return) and isinstance(r.value, ast.Tuple) and len(r.value.elts) == 2 and isinstance(r.value.elts[1], ast.Subscript)):
+            continue
+        sub = r.value.elts[1]
+        if not (isinstance(sub.value, ast.Name) and isinstance(sub.slice, ast.Name)):
+            continue
+        ids = live_ids(cfg, r)
+        if not ids:
+            continue
+        found += 1
+        bad = []
+        for nm, field in ((sub.value.id, "value"), (sub.slice.id, "slice")):
+            ds = rd.at(ids[0], nm)
+            for d in ds:
+                direct = d.kind == "assign" and d.index == (1,) and isinstance(d.value, ast.Call) and norm(d.value.func) == "is_constant" \
+                    and norm(d.value.args[0]).endswith("." + field)
+                if direct:
+                    continue
+                # accepted: int(x) under a guard that x is integral
+                v = d.value
+                integral = d.kind == "assign" and isinstance(v, ast.Call) and norm(v.func) == "int" and norm(v.args[0]) == nm and \
+                    any(p and ("is_integer" in norm(t) or f"int({nm})" in norm(t) and "==" in norm(t)) for t, p in guard_atoms(cfg, d.node))
+                if not integral:
+                    bad.append(f"{nm} = {norm(v) if v is not None else d.kind}")
+        chk.judge("R03.j", "utils:is_constant:folded subscript uses list and index as computed", not bad,
+                  f"before indexing, {bad}: the folded element differs from the one the run-time select chain / jump table picks for the same index "
+                  f"(fractional indices truncated, negative ones wrapped)", {"redefinitions": bad}, f"{u.path}:{r.lineno} in is_constant")
+    if not found:
+        raise AnalysisError("R03.j: folded subscript (return True, value[slice]) not found in is_constant")
